@@ -194,14 +194,20 @@ def run(chk):
             if schemas.valid_doc(d) is not None:
                 docs.append(d)
     chk.rule = ("4 base schemas (nesting depth 3, multisections, abstract slots, wrapping section datatypes, a case-sensitive key type) x %d random "
-                "placements of handler attributes on subsets of all items and the schema x %d random texts (conforming "
+                "placements of handler attributes on subsets of all items and the schema x %d random texts, 30%% of them with 1..2 command-line overrides (conforming "
                 "generator; rejected ones count as trivial) x handler maps {complete (with upper-cased names), each name "
                 "missing, each name mapped to None, each name duplicated in another case, each name supplied only in two non-normalised spellings}; non-trivial = accepted text with "
                 "at least one handler entry" % (nvar, ntext))
     sc = scenario.Scenarios(docs)
+    from . import c14
     for sid in range(len(docs)):
         for t in range(ntext):
-            sc.add(sid, {"d/main.conf": textgen.Gen(rng, sc.recs[sid]).text()})
+            text = textgen.Gen(rng, sc.recs[sid]).text()
+            opts = []
+            if rng.random() < 0.3:
+                # the same entries must be delivered when option bags travel with the sections
+                opts = [o for o in c14.gen_overrides(rng, sc.recs[sid], text, rng.randint(1, 2)) if c14.parse(o)]
+            sc.add(sid, {"d/main.conf": text}, opts=opts)
     outs = sc.run_spec(chk, invariants=["HandlerOrderIsPostOrder", "TreeIsValueTree2"])
     for it, o in zip(sc.items, outs):
         it["meta"]["nontrivial"] = o["o"]["r"] == "ok" and len(o["o"]["hl"]) > 0
